@@ -34,6 +34,9 @@ claimed = {
  "C11": dict(
    text="Word level (BV): Galois-element arithmetic of rlwe.Parameters (GaloisElement group law, periodicity in the generator order, ModInvGaloisElement, SolveDiscreteLogGaloisElement) for all 64-bit rotation indices, through the real ModExp/ModExpPow2 loops (if-converted). Algebraic level (in the C04 automorphism harness, shared code): Automorphism / AutomorphismHoisted / AutomorphismHoistedLazy decrypt to sigma_g of the plaintext with the slot permutation computed from the definition. Inner sums, replication and the scheme-level rotation wrappers are not yet covered.",
    ref="DESIGN.md §6-C11", technique="SSA symbolic execution + SMT (BV) on the Galois arithmetic; algebraic slot model for the induced ciphertext automorphisms"),
+ "C14": dict(
+   text="Algebraic slot model of the real collective key-generation protocols (public key, relinearization key both rounds, Galois key) for 1-3 parties with all secrets, errors and CRS polynomials atoms: every party reads the same reference polynomial from equally keyed CRS objects, the aggregate is independent of order/grouping (exact polynomial identity), and the resulting key is a key of the sum of the secrets (checked by using it: encryption+decryption, relinearisation, automorphism under the ideal secret, up to error atoms); mismatched Galois shares are rejected; parameter sets with and without P. The numeric N-times-single-party noise bound and serialization of shares are outside here (C08).",
+   ref="DESIGN.md §6-C14", technique="SSA symbolic execution in the algebraic slot model + SMT (LIA) on the normalised identities"),
  "C19": dict(
    text="Symbolic execution of rlwe.CheckModuli with a symbolic candidate modulus and an arbitrary primality oracle (solver characterises every accepted size), plus boundary witnesses (real primes) checked against the 61-bit size the arithmetic layer supports (8q<=2^64, from the C01 stage invariants).",
    ref="DESIGN.md §6-C19", technique="SSA symbolic execution + SMT (BV) over the acceptance predicates; concrete boundary witnesses replayed natively"),
